@@ -78,8 +78,8 @@ static std::vector<std::string> refSplit(const std::string& cmd) {   // words se
   if (any || !cur.empty()) out.push_back(cur);
   return out;
 }
-static const char* words[] = {"prog", "a", "-x", "file.txt", "b c", "say \"hi\"", "--opt=1", "q"};
-static std::string quote(const std::string& w) { if (w.find(' ') == std::string::npos && w.find('"') == std::string::npos) return w; std::string o = "\""; for (char ch : w) { if (ch == '"') o += "\\\""; else o += ch; } return o + "\""; }
+static const char* words[] = {"prog", "a", "-x", "file.txt", "b c", "say \"hi\"", "--opt=1", "q", ""};   /* the last one: an empty argument, written "" on a command line */
+static std::string quote(const std::string& w) { if (!w.empty() && w.find(' ') == std::string::npos && w.find('"') == std::string::npos) return w; std::string o = "\""; for (char ch : w) { if (ch == '"') o += "\\\""; else o += ch; } return o + "\""; }
 
 static void checkImage(simproc::Child* c) {
   Host h;
@@ -151,7 +151,7 @@ static void doOpen(const Op& op) {
   static const char* ek[] = {"ALPHA", "BETA", "PATHX"}; static const char* ev[] = {"1", "two words", "/x:/y"};
   for (int i = 0; i < envN; ++i) env.insert(String(ek[i], strlen(ek[i])), String(ev[i], strlen(ev[i])));
   { Host h; for (int i = 0; i < envN; ++i) C.expEnv.push_back(std::string(ek[i]) + "=" + ev[i]); C.expParentEnv = envN == 0; }
-  std::vector<std::string> w; { Host h; int n = 1 + (int)(seed % 4); seed /= 4; w.push_back("prog"); for (int i = 1; i < n; ++i) { w.push_back(words[1 + seed % 7]); seed /= 7; } }
+  std::vector<std::string> w; { Host h; int n = 1 + (int)(seed % 4); seed /= 4; w.push_back("prog"); for (int i = 1; i < n; ++i) { w.push_back(words[1 + seed % 8]); seed /= 8; } }
   bool ok = false;
   if (kind == 0 || kind == 4) {           // command line forms
     std::string cmd; { Host h; for (size_t i = 0; i < w.size(); ++i) { if (i) cmd += ' '; cmd += quote(w[i]); } C.expArgv = refSplit(cmd); C.expProgram = C.expArgv.empty() ? "" : C.expArgv[0]; }
@@ -188,6 +188,9 @@ static void drainAndJoin() {
       /* the system could not create another process: the failed object is dropped; the first process must not notice */
       probe("second_open_failed_no_process_could_be_created"); delete C.proc2; C.proc2 = 0; }
     if (C.proc2) { C.pid2 = (int)C.proc2->getProcessId(); simproc::Child* c2 = simproc::findChild(C.pid2); if (c2 && c2->execed) checkImage(c2); }
+    /* waiting for "one of these processes" must leave a process that is not in the list alone: the first process alone is handed to Process::wait
+       while the second one (which exits soon) runs - afterwards both must still be joinable (only when the second child's output fits its pipes) */
+    if (C.proc2 && simdrv::knob(*C.spec, "wait_subset", 0) && simdrv::knob(*C.spec, "pipe_cap", 65536) >= 512) { Process* only[1] = {C.proc}; Process* got = Process::wait(only, 1); probe(got ? "wait_returned_listed_process" : "wait_returned_for_unlisted_process"); if (got && got != C.proc) fail("C20/wait_result", "Process::wait returned a process that was not in its list"); }
     { Host h; C.expProgram = ep; C.expArgv = ea; C.expEnv = ee; C.expParentEnv = epe; } C.streams = keep; probe("second_process");
   }
   unsigned open = C.streams & (Process::stdoutStream | Process::stderrStream);
@@ -276,7 +279,7 @@ static void generate(RunSpec& s, int tier) {
   auto r = [&](uint64_t n) { z += 0x9e3779b97f4a7c15ULL; uint64_t x = z; x = (x ^ (x >> 30)) * 0xbf58476d1ce4e5b9ULL; x = (x ^ (x >> 27)) * 0x94d049bb133111ebULL; x ^= x >> 31; return n ? x % n : x; };
   int mode = r(4) == 0 ? 1 : 0; s.knobs["mode"] = mode;
   if (mode == 1) { int n = 1 + (int)r(12); for (int i = 0; i < n; ++i) { Op o; o.task = 0; o.code = A_PARSE; o.a[0] = (int64_t)r(1u << 30); o.a[1] = (int64_t)r(1u << 30); o.a[2] = o.a[3] = 0; s.plan.push_back(o); } return; }
-  static const int caps[] = {1, 16, 512, 4096, 65536}; s.knobs["pipe_cap"] = caps[r(5)]; s.knobs["exit_code"] = r(4) == 0 ? r(256) : r(3); s.knobs["drain_with_select"] = r(2); s.knobs["read_chunk"] = r(4096); s.knobs["kill_instead_of_join"] = r(10) == 0; s.knobs["stdin_readable"] = r(2); s.knobs["vfork_fail_pct"] = r(5) == 0 ? 50 : 0; s.knobs["join_without_reading"] = r(4) == 0; s.knobs["full_mask"] = r(2);
+  static const int caps[] = {1, 16, 512, 4096, 65536}; s.knobs["pipe_cap"] = caps[r(5)]; s.knobs["exit_code"] = r(4) == 0 ? r(256) : r(3); s.knobs["drain_with_select"] = r(2); s.knobs["read_chunk"] = r(4096); s.knobs["kill_instead_of_join"] = r(10) == 0; s.knobs["stdin_readable"] = r(2); s.knobs["wait_subset"] = r(2); s.knobs["vfork_fail_pct"] = r(5) == 0 ? 50 : 0; s.knobs["join_without_reading"] = r(4) == 0; s.knobs["full_mask"] = r(2);
   static const int pct[] = {0, 0, 10, 30}; s.knobs["pipe_fault_pct"] = pct[r(4)]; s.knobs["eintr_pct"] = r(3) == 0 ? 5 : 0; s.knobs["exec_fail_pct"] = r(8) == 0 ? 100 : 0; s.knobs["second_process"] = r(3) == 0 ? 1 + r(3) : 0;
   static const int synck[] = {0, 1, 2, 4}; s.knobs["sync_switch_log2"] = synck[r(4)]; static const int memk[] = {255, 255, 8, 5}; s.knobs["mem_switch_log2"] = memk[r(4)];
   { Op o; o.task = 0; o.code = P_OPEN; o.a[0] = (int64_t)r(6); o.a[1] = (int64_t)r(8); o.a[2] = (int64_t)r(4); o.a[3] = (int64_t)r(1u << 30); s.plan.push_back(o); }
